@@ -62,14 +62,21 @@ LANE_ASSUME = [
 
 def c01(ctx):
     ctx.assumptions += LANE_ASSUME
-    _with_mc(ctx, lambda: (mc_intlane(ctx, ['C01']), mc_avel(ctx)),
-             lambda: runner.lane_facts(ctx, 'drv_int.cpp', 'arith', INT_GROUPS))
+    def conf():
+        runner.lane_facts(ctx, 'drv_int.cpp', 'arith', INT_GROUPS)
+        if ctx.tier == 'thorough':
+            ctx.assumptions.append('thorough: all 2^32 operand pairs of the 16-bit types swept natively against the C++ operators in every configuration; disagreements (and only those) are judged by TLC')
+            runner.lane_facts(ctx, 'drv_int.cpp', 'sweep16_arith', [16])
+    _with_mc(ctx, lambda: (mc_intlane(ctx, ['C01']), mc_avel(ctx)), conf)
 
 
 def c02(ctx):
     ctx.assumptions += LANE_ASSUME
     def conf():
         runner.lane_facts(ctx, 'drv_int.cpp', 'cmp', INT_GROUPS)
+        if ctx.tier == 'thorough':
+            ctx.assumptions.append('thorough: all 2^32 operand pairs of the 16-bit types swept natively against the C++ operators in every configuration; disagreements (and only those) are judged by TLC')
+            runner.lane_facts(ctx, 'drv_int.cpp', 'sweep16_cmp', [16])
         runner.lane_facts(ctx, 'drv_fp.cpp', 'fcmp', [32, 64])
     _with_mc(ctx, lambda: (mc_intlane(ctx, ['C02']), mc_avel(ctx)), conf)
 
@@ -86,7 +93,12 @@ def c05(ctx):
     def mc():
         mc_intlane(ctx, ['C05'])
         ctx.mc('MC_IntLane', mc_cfg(['L = 1', 'Dom <- Lat8'], ['C05u'], 'InDom', 'View'), 'il8u', workers=8)
-    _with_mc(ctx, mc, lambda: runner.lane_facts(ctx, 'drv_int.cpp', 'div', INT_GROUPS))
+    def conf():
+        runner.lane_facts(ctx, 'drv_int.cpp', 'div', INT_GROUPS)
+        if ctx.tier == 'thorough':
+            ctx.assumptions.append('thorough: all 2^32 operand pairs of the 16-bit types swept natively against the C++ operators in every configuration; disagreements (and only those) are judged by TLC')
+            runner.lane_facts(ctx, 'drv_int.cpp', 'sweep16_div', [16])
+    _with_mc(ctx, mc, conf)
 
 
 def c06(ctx):
@@ -106,6 +118,9 @@ def c07(ctx):
     ctx.assumptions += LANE_ASSUME
     def conf():
         runner.lane_facts(ctx, 'drv_int.cpp', 'select', INT_GROUPS)
+        if ctx.tier == 'thorough':
+            ctx.assumptions.append('thorough: all 2^32 operand pairs of the 16-bit types swept natively against the C++ operators in every configuration; disagreements (and only those) are judged by TLC')
+            runner.lane_facts(ctx, 'drv_int.cpp', 'sweep16_select', [16])
         runner.lane_facts(ctx, 'drv_fp.cpp', 'fselect', [32, 64])
     _with_mc(ctx, lambda: (mc_intlane(ctx, ['C07']), mc_avel(ctx)), conf)
 
